@@ -28,6 +28,12 @@ pub enum Mutn {
     Redirect(usize),
     /// deliver the unchanged bytes from another source address (0: third node's, 1: a stranger's)
     ForeignSrc(u8),
+    /// unmasked domain: append `n` bytes to the auth-data and fix the auth-data size, re-mask
+    AuthTail(usize),
+    /// unmasked domain: drop the last `n` bytes of the auth-data and fix the size, re-mask
+    AuthTrim(usize),
+    /// unmasked domain: move `n` bytes from the start of the body into the auth-data (size + n)
+    AuthGrow(usize),
 }
 
 pub struct Tamper {
@@ -124,6 +130,46 @@ impl Driver for Tamper {
                 }
                 Mutn::Redirect(n) => target = Some(*n),
                 Mutn::ForeignSrc(k) => src = if *k == 0 { w.nodes[w.nodes.len() - 1].addr } else { stranger },
+                Mutn::AuthTail(n) | Mutn::AuthTrim(n) | Mutn::AuthGrow(n) => {
+                    let grow = matches!(self.m, Mutn::AuthGrow(_));
+                    let tail = matches!(self.m, Mutn::AuthTail(_));
+                    let n = *n;
+                    if let Some(hl) = header_len(&d.dst_id, &bytes) {
+                        let body = bytes[hl..].to_vec();
+                        let mut moved = 0usize;
+                        let edited = remask(&bytes, &d.dst_id, &d.dst_id, |h| {
+                            // h = static header (23) ‖ auth-data
+                            let mut asz = u16::from_be_bytes([h[21], h[22]]) as usize;
+                            if tail {
+                                h.extend(std::iter::repeat(0x41).take(n));
+                                asz += n;
+                            } else if grow {
+                                moved = n.min(body.len());
+                                // the moved bytes are taken as they are on the wire; after re-masking they
+                                // become auth-data bytes
+                                h.extend_from_slice(&body[..moved]);
+                                asz += moved;
+                            } else {
+                                let cut = n.min(asz);
+                                h.truncate(h.len() - cut);
+                                asz -= cut;
+                            }
+                            let b = (asz as u16).to_be_bytes();
+                            h[21] = b[0];
+                            h[22] = b[1];
+                        });
+                        if let Some(e) = edited {
+                            // `remask` re-appended the original body; rebuild with the intended body
+                            let new_hl = e.len() - body.len();
+                            let mut out = e[..new_hl].to_vec();
+                            out.extend_from_slice(&body[moved..]);
+                            bytes = out;
+                        }
+                    }
+                }
+            }
+            if bytes != d.bytes {
+                w.scratch.push(("tampered".into(), vec![target.unwrap_or(99) as u8]));
             }
             if let Some(t) = target {
                 w.log_mark = w.log.len();
@@ -134,6 +180,20 @@ impl Driver for Tamper {
 
     /// Everything handed to any application must be a message its attributed sender submitted.
     fn check(&self, w: &mut World, ev: &Ev, _pre: &[Option<HandlerSnapshot>]) {
+        // a datagram that differs from the genuine one is never the carrier of a delivered message
+        if let Ev::Ext(_) = ev {
+            if let Some((_, t)) = w.scratch.iter().find(|(k, _)| k == "tampered").cloned() {
+                let n = t[0] as usize;
+                if n < w.nodes.len() {
+                    let delivered = w.last_raw[n].iter().any(|r| matches!(r, HandlerOut::Request(..) | HandlerOut::Response(..)));
+                    if delivered {
+                        w.violate("C02", "a delivered message is bound to the datagram's own header: an altered datagram never produces a delivered message", "tampered-datagram-accepted", format!("node {n} delivered a message carried by a datagram altered by {:?}", self.m));
+                    } else {
+                        w.count("tampered_datagrams_rejected");
+                    }
+                }
+            }
+        }
         for n in 0..w.nodes.len() {
             for raw in w.last_raw[n].clone() {
                 match raw {
@@ -210,6 +270,8 @@ fn bases() -> Vec<(String, HCfg, Vec<Ev>)> {
     let quiet = |w: Vec<Req>, restart: Vec<usize>| HCfg { nodes: 3, workload: w, allow_drop: false, allow_dup: false, allow_reorder: false, allow_early_timer: false, allow_late_way: false, allow_restart: restart, ..Default::default() };
     vec![
         ("fresh".into(), quiet(vec![req(1, 0, Body::Ping, true), req(0, 1, Body::Talk, true), req(1, 0, Body::Find(2), true)], vec![]), vec![]),
+        // the recipient knows no record of the initiator: WHOAREYOU carries enr-seq 0 and the handshake a record
+        ("fresh-unknown".into(), quiet(vec![req(1, 0, Body::Ping, true), req(0, 1, Body::Talk, true)], vec![]), vec![Ev::Submit(0), Ev::Deliver(0), Ev::AnsWay(0, false)]),
         ("awaiting-record".into(), quiet(vec![req(0, 1, Body::Ping, false), req(1, 0, Body::Talk, true), req(0, 1, Body::Find(2), false)], vec![]), vec![]),
         // node 1 loses its sessions after the first exchange; node 0 then re-keys in place (old keys retained)
         ("re-keyed".into(), quiet(vec![req(0, 1, Body::Ping, true), req(0, 1, Body::Talk, true), req(1, 0, Body::Ping, true)], vec![1]), vec![Ev::Submit(0), Ev::Deliver(0), Ev::AnsWay(1, true), Ev::Deliver(0), Ev::Deliver(0), Ev::Respond(1), Ev::Deliver(0), Ev::Restart(1)]),
@@ -274,6 +336,11 @@ fn mutations(len: usize, hl: usize, log_len: usize, thorough: bool) -> Vec<Mutn>
     for j in 0..log_len {
         m.push(Mutn::HeaderWithBodyOf(j));
         m.push(Mutn::BodyWithHeaderOf(j));
+    }
+    for n in [1usize, 2, 16, 64] {
+        m.push(Mutn::AuthTail(n));
+        m.push(Mutn::AuthTrim(n));
+        m.push(Mutn::AuthGrow(n));
     }
     m.push(Mutn::RemaskFor(2));
     m.push(Mutn::Redirect(2));
